@@ -709,7 +709,7 @@ class BaseBackend(CodeGen):
             return self._solve_euler(func, args, T, dt, dts, y0, t0)
 
         if solver == 'heun':
-            return self._solve_heun(func, args, T, dt, dts, y0, t0)
+            return self._solve_heun(func, args, T, dt, dts, y0, t0, stateful=getattr(self, 'stateful_args', ()))
 
         # solver == 'scipy'
         if len(args) > 0 and isinstance(args[0], DDEHistory):
@@ -750,7 +750,7 @@ class BaseBackend(CodeGen):
         return state_rec
 
     @staticmethod
-    def _solve_heun(func: Callable, args: tuple, T: float, dt: float, dts: float, y: np.ndarray, t0):
+    def _solve_heun(func: Callable, args: tuple, T: float, dt: float, dts: float, y: np.ndarray, t0, stateful=()):
 
         # preparations for fixed step-size integration
         idx = 0
@@ -770,12 +770,21 @@ class BaseBackend(CodeGen):
                 state_rec[idx, :] = y
                 idx += 1
             step = i + t0
+            # arguments that the function advances on every call (delay ring buffers) advance once per step: both
+            # stages start from the buffers of the previous step (like both read input sample `step`), and the
+            # buffers written by the predictor stage are the ones that are kept
+            before = [a.copy() for a in stateful]
             rhs = func(step, y, *args)
             y_0 = y + dt * rhs
             # `func` may return the same in-place buffer on every call: consume the predictor slope before the
             # corrector evaluation overwrites it
             y += dt/2 * rhs
+            after = [a.copy() for a in stateful]
+            for a, a_saved in zip(stateful, before):
+                a[...] = a_saved
             y += dt/2 * func(step, y_0, *args)
+            for a, a_saved in zip(stateful, after):
+                a[...] = a_saved
             if has_dde:
                 args[0].update((i + 1) * dt, y)
 
